@@ -6,8 +6,28 @@
 #include <stdarg.h>
 #include "mlog.c"
 
-static const char *fmts[8] = { "F0 %lu %lu %lu", "F1 %lu %lu %lu", "F2 %lu %lu %lu", "F3 %lu %lu %lu",
-			       "F4 %lu %lu %lu", "F5 %lu %lu %lu", "F6 %lu %lu %lu", "F7 %lu %lu %lu" };
+/* 16 format strings: plain, longer than any fixed line buffer, star width / precision, literal percent signs,
+ * string arguments, no conversions at all.  The model/driver and the Python oracle render the same table. */
+#define X50 "xxxxxxxxxxxxxxxxxxxxxxxxxxxxxxxxxxxxxxxxxxxxxxxxxx"
+static const char *fmts[16] = { "F0 %lu %lu %lu", "F1 %lu %lu %lu", "F2 %lu %lu %lu", "F3 %lu %lu %lu",
+			        "F4 %lu %lu %lu", "F5 %lu %lu %lu", "F6 %lu %lu %lu", "F7 %lu %lu %lu",
+			        "L" X50 X50 X50 " %lu %lu %lu",          /*  8: > 150 characters                       */
+			        "M" X50 X50 "xxxxxxxxxxxxxxxxxxxxx%lu",  /*  9: 122 + digits: straddles 127/128/129     */
+			        "W[%*lu]%lu",                            /* 10: star width                              */
+			        "P%%|%lu|%%%lu|%lu",                     /* 11: literal percent signs                   */
+			        "S %s %lu %lu",                          /* 12: string argument                         */
+			        "T%.*s|%lu",                             /* 13: star precision + string                 */
+			        "",                                      /* 14: empty line                              */
+			        "no conversions at all" };               /* 15                                          */
+static const char *strs[4] = { "", "a", "hello", "percent%sign and spaces" };
+
+/* arguments as the format needs them (all travel as uintptr_t through mlog's varargs, like any caller's) */
+static void args_for(int i, unsigned long a[3])
+{
+	if (i == 10) a[0] %= 13;                                   /* width 0..12 */
+	if (i == 12) a[0] = (unsigned long)strs[a[0] & 3];
+	if (i == 13) { a[0] %= 7; a[1] = (unsigned long)strs[a[1] & 3]; }
+}
 
 int main(void)
 {
@@ -17,9 +37,10 @@ int main(void)
 		long a = 0; unsigned long b = 0, c = 0, d = 0;
 		int n = sscanf(line, "%31s %ld %lu %lu %lu", op, &a, &b, &c, &d);
 		if (n < 1) continue;
+		unsigned long av[3] = { b, c, d };
 		if (!strcmp(op, "--")) { puts("--"); }
-		else if (!strcmp(op, "log")) { mlog(fmts[a & 7], b, c, d); puts("ok"); }
-		else if (!strcmp(op, "nice")) { mlog_nice(fmts[a & 7], b, c, d); puts("ok"); }
+		else if (!strcmp(op, "log")) { args_for(a & 15, av); mlog(fmts[a & 15], av[0], av[1], av[2]); puts("ok"); }
+		else if (!strcmp(op, "nice")) { args_for(a & 15, av); mlog_nice(fmts[a & 15], av[0], av[1], av[2]); puts("ok"); }
 		else if (!strcmp(op, "clear")) { mlog_clear(); puts("ok"); }
 		else if (!strcmp(op, "reset")) { memset(&log, 0, sizeof log); puts("ok"); }
 		else if (!strcmp(op, "sethead")) { log.head = (unsigned int)a; puts("ok"); }
